@@ -50,7 +50,7 @@ func (e *Echo) Handle(c context.Context, ctx *app.RequestContext) {
 	o.CT = string(ctx.Request.Header.ContentType())
 	o.UA = string(ctx.Request.Header.UserAgent())
 	ctx.Request.Header.VisitAllCustomHeader(func(k, v []byte) {
-		if strings.EqualFold(string(k), "Transfer-Encoding") {
+		if wire.EqFold(string(k), "Transfer-Encoding") {
 			// framing header: hertz replaces it by the decoded length in buffered
 			// mode; framing is judged by the body, not by this field
 			return
@@ -97,7 +97,7 @@ func ExpectObs(g *GenReq, norm bool) *Obs {
 		if norm {
 			k = NormName(k)
 		}
-		if strings.EqualFold(k, "Transfer-Encoding") {
+		if wire.EqFold(k, "Transfer-Encoding") {
 			k = "Transfer-Encoding"
 		}
 		o.Headers = append(o.Headers, wire.Header{K: k, V: h.V})
